@@ -26,7 +26,17 @@ def _mk_hdr(h, via="ctor"):
             pid.raw(), psc.raw()
             pid.ptype, pid.sec_header_flag, pid.apid = PacketType(h["type"]), bool(h["shf"]), h["apid"]
             psc.seq_flags, psc.seq_count = SequenceFlags(h["flags"]), h["count"]
-            return SpacePacketHeader.from_composite_fields(pid, psc, h["dlen"], h["ver"])
+            res = SpacePacketHeader.from_composite_fields(pid, psc, h["dlen"], h["ver"])
+            # the caller builds the next header from the SAME composite objects and then changes that one through its setters:
+            # the first header keeps its own values
+            try:
+                sib = SpacePacketHeader.from_composite_fields(pid, psc, h["dlen"], h["ver"])
+                sib.apid = (h["apid"] + 1) % 2048
+                sib.seq_count = (h["count"] + 1) % 16384
+                sib.pack()
+            except Exception:  # noqa
+                pass
+            return res
         return SpacePacketHeader.from_composite_fields(
             PacketId(PacketType(h["type"]), bool(h["shf"]), h["apid"]),
             PacketSeqCtrl(SequenceFlags(h["flags"]), h["count"]), h["dlen"], h["ver"])
@@ -105,6 +115,19 @@ def mk_tc(p, via="ctor"):
         return PusTc(service=p["service"], subservice=p["subservice"], apid=p["apid"], app_data=bytearray(data),
                      seq_count=p["seq"], source_id=p["source"], ack_flags=p["ack"])
     if via == "sph":
+        if (p["apid"] + p["seq"]) % 2:
+            # the header comes from composite objects that the caller uses again for the NEXT telecommand, which is then
+            # re-addressed through its setters: this telecommand keeps its own APID and sequence count
+            from spacepackets.ccsds.spacepacket import PacketId, PacketSeqCtrl, SequenceFlags
+            pid, psc = PacketId(PacketType.TC, True, p["apid"]), PacketSeqCtrl(SequenceFlags.UNSEGMENTED, p["seq"])
+            tc = PusTc.from_sp_header(SpacePacketHeader.from_composite_fields(pid, psc, 0), service=p["service"],
+                                      subservice=p["subservice"], app_data=data, source_id=p["source"], ack_flags=p["ack"])
+            nxt = PusTc.from_sp_header(SpacePacketHeader.from_composite_fields(pid, psc, 0), service=p["service"],
+                                       subservice=p["subservice"], app_data=data, source_id=p["source"], ack_flags=p["ack"])
+            nxt.apid = (p["apid"] + 1) % 2048
+            nxt.seq_count = (p["seq"] + 1) % 16384
+            nxt.pack()
+            return tc
         sph = SpacePacketHeader(packet_type=PacketType.TM, apid=p["apid"], seq_count=p["seq"], data_len=0)
         return PusTc.from_sp_header(sph, service=p["service"], subservice=p["subservice"], app_data=data,
                                     source_id=p["source"], ack_flags=p["ack"])
